@@ -48,6 +48,13 @@ Theorem C01_name_is_gblock :
 Proof. exact gblock_name. Qed.
 Print Assumptions C01_name_is_gblock.
 
+(* ... and by a name followed by a repeater `*N`: the element carries that repeater *)
+Theorem C01_name_rep_is_gblock :
+  forall (t tr : token) (v : str) (rp : rep), tk t = TLiteral v -> rep_of tr = Some rp ->
+    gblock_ok false [t; tr] (mkLeaf (Some [t]) None None (Some rp) false).
+Proof. exact gblock_name_rep. Qed.
+Print Assumptions C01_name_rep_is_gblock.
+
 (* convert_shape: unrolling preserves the relative order of the written elements and multiplies
    them by the repeat counts.  For every token tree without `$#` / implicit `*` and a budget that
    does not cut (C02 treats the cut): the converter's forest has the depth list [shape] -- each unit
